@@ -219,7 +219,7 @@ def run(ctx):
   ctx.model('MC_Supervised', 'MC_Supervised.cfg', workers=4)
   rng = np.random.default_rng(ctx.seed + 8)
   rs = []
-  per = 5 if ctx.quick else 40
+  per = 5 if ctx.quick else 120
   for name in SUP:
     for unknown in (False, True):
       for k in range(2 if ctx.quick else 4):
